@@ -46,6 +46,27 @@ class Raised:
         return float('nan')
 
 
+class CallTimeout(Exception):
+    pass
+
+
+def guarded_timeout(secs, fn, *a, **k):
+    """guarded() with a wall-clock limit (SIGALRM): a call that does not return is an observation too."""
+    import signal
+
+    def handler(signum, frame):
+        raise CallTimeout('no result after %ss' % secs)
+    old = signal.signal(signal.SIGALRM, handler)
+    signal.setitimer(signal.ITIMER_REAL, secs)
+    try:
+        return fn(*a, **k)
+    except Exception as e:   # noqa
+        return Raised(e)
+    finally:
+        signal.setitimer(signal.ITIMER_REAL, 0)
+        signal.signal(signal.SIGALRM, old)
+
+
 def guarded(fn, *a, **k):
     """Call code under test; an exception is an observation (Raised), not a harness crash."""
     try:
